@@ -155,6 +155,13 @@ def cases(tier: str) -> list[dict[str, Any]]:
         for wait, dur in ((1, 0.7), (1, 0.0), (0.25, 0.25)):
             cs.append({"stop": ("delay_td", d), "wait": wait, "dur": dur, "clause": "delay_budget"})
             cs.append({"stop": ("before_td", d), "wait": wait, "dur": dur, "clause": "composed_budget"})
+    # ... and budgets of a day and more (timedelta keeps days apart from seconds), alone and composed
+    for d in (86400.0, 86402.5, 129600.0):
+        for wait, dur in ((40000, 0.7), (30000, 0.0)):
+            cs.append({"stop": ("delay_td", d), "wait": wait, "dur": dur, "clause": "delay_budget"})
+            cs.append({"stop": ("before_td", d), "wait": wait, "dur": dur, "clause": "composed_budget"})
+            cs.append({"stop": ("or", ("delay_td", d), ("attempt", 4)), "wait": wait, "dur": dur, "clause": "composed_budget"})
+        cs.append({"stop": ("or", ("and", ("attempt", 2), ("delay_td", d)), ("attempt", 5)), "wait": 0, "dur": 0.0, "clause": "composed_budget"})
     if tier != "quick":
         # systematic product: every atom and every pair under | and & x waits x durations
         atoms = [("attempt", n) for n in (1, 2, 3, 5)] + [("delay", d) for d in (1.0, 2.5, 4.0)] + [("before", d) for d in (1.0, 2.5, 4.0)] \
